@@ -80,6 +80,7 @@ int  mvsim_active(void);
 
 /* ---- for harness code running inside the simulation ---- */
 void     mvsim_user_point(void);              /* schedule point in user code */
+void     mvsim_user_spin(void);               /* one iteration of a user-level busy-wait: parked until another worker made progress */
 void     mvsim_quiesce(void);                 /* run the others until they all idle */
 uint64_t mvsim_step(void);                    /* global step number (event sequence number) */
 int      mvsim_cur_worker(void);              /* simulator's idea of the running worker coroutine */
